@@ -28,7 +28,7 @@ func TestC14(t *testing.T) {
 	// paused AND failed needs two deviations (auto-pause by restarts or user pause, then failure)
 	pausedFailed := &w.Alpha{Kubectl: []string{"canary-pause", "canary-fail"}, PodDev: []string{"restart:2", "restart:3"}}
 	scs := []scOpt{corpusS1(b, churn), corpusS2(n, "2", b, churn), corpusS3(n, "1", "auto", b, canaryDev()), corpusS3([]string{"n1", "n2"}, "1", "manual", 2, pausedFailed)}
-	specEdits := corpusS3(n, "1", "auto", 1, &w.Alpha{SpecEdits: []string{"drop-canary", "canary-replicas=2"}})
+	specEdits := corpusS3(n, "1", "auto", 2, &w.Alpha{SpecEdits: []string{"drop-canary", "canary-replicas=2"}, PodDev: []string{"restart:2"}, Kubectl: []string{"canary-pause"}})
 	specEdits.name = "S3-canary-spec-edits"
 	scs = append(scs, specEdits)
 	// a user command lands between the reads and the first write of an ExtendedDaemonSet reconcile: whatever that
